@@ -170,6 +170,9 @@ func (x *Unit) typeInv(st *State, v Val, depth int) T {
 		}
 		return And(Cmp(">=", v.T, IntLit(0)), Cmp("<=", x.proot(v.T), st.alloc))
 	case *types.Interface:
+		if v.Sort != SIface {
+			return True // a value of an unconstrained type parameter: opaque
+		}
 		return And(Cmp(">=", IfaceTyp(v.T), IntLit(0)), Imp(Eq(IfaceTyp(v.T), IntLit(0)), Eq(IfaceVal(v.T), IntLit(0))))
 	case *types.Struct:
 		if depth > 2 {
